@@ -241,6 +241,9 @@ SCALAR_POOL = [{"type": "string"}, {"enum": ["red", "green", "blue"]}, {"enum": 
                {"type": "number", "minimum": 0.5, "maximum": 2.5}, {"type": "integer", "enum": [0, 1, 2]},
                {"type": ["number", "null"]}, {"enum": [1, 2.5, None, "x"]}, {"type": "number", "enum": [1, 2, 2.5]}]
 
+TUP_ITEMS = [{"type": "object", "properties": {"id": {"type": "integer"}}, "required": ["id"]}, {"type": "string"}, {"type": "integer"},
+             {"type": "object", "properties": {"id": {"type": "integer"}}, "required": ["id"]}]
+
 def scalar_pair_cases():
     """every unordered pair of the scalar pool (and each entry against a reference to an enumeration): deterministic"""
     out = []
@@ -262,6 +265,11 @@ def gen_case(rng, k):
     if "Base" in defs and rng.random() < 0.5:
         defs["Comp"] = {"allOf": [ref("Base"), gen_obj(rng, home, {}, closed_ok=False)]}
     if rng.random() < 0.3: defs["Arr"] = {"type": "array", "items": copy.deepcopy(rng.choice(SCALARS[:3]))}
+    if rng.random() < 0.3:
+        # a tuple definition, often with structurally identical positions (refinements of ONE position must not be lost or moved)
+        its = [copy.deepcopy(rng.choice(TUP_ITEMS)) for _ in range(rng.choice([2, 2, 3]))]
+        if rng.random() < 0.6: its[1] = copy.deepcopy(its[0])
+        defs["Tup"] = {"type": "array", "items": its, "minItems": len(its), "maxItems": len(its)}
     objdefs = [d for d in ("Base", "Other", "Comp") if d in defs]
     mode = rng.choices(["object", "scalar", "array", "oneof", "not"], [50, 14, 12, 14, 10])[0]
     n = rng.choice([2, 2, 2, 3, 3, 4])
@@ -286,6 +294,9 @@ def gen_case(rng, k):
             if rng.random() < 0.12:     # overlapping branches (exercises the subtraction arm)
                 brs = [{"type": "object", "properties": {p: copy.deepcopy(home[p])}, "required": [p]} for p in rng.sample(PROPS, 2)]
                 comb = rng.choice(["oneOf", "anyOf"])
+            if rng.random() < 0.4:      # the branches are named types: `oneOf` over references (a discriminated union of definitions)
+                for bi, b in enumerate(brs): defs["Br%d" % bi] = b
+                brs = [ref("Br%d" % bi) for bi in range(len(brs))]
             xs[rng.randrange(len(xs))] = {comb: brs}
         if mode == "not":
             names = rng.sample(PROPS, 1 if rng.random() < 0.8 else 2)
@@ -306,6 +317,17 @@ def gen_case(rng, k):
     else:
         def arr():
             if "Arr" in defs and rng.random() < 0.25: return ref("Arr")
+            if "Tup" in defs and rng.random() < 0.5:
+                if rng.random() < 0.45: return ref("Tup")
+                its = []
+                for it in defs["Tup"]["items"]:           # a refinement of some positions, `{}` elsewhere
+                    r_ = rng.random()
+                    if r_ < 0.5: its.append({})
+                    elif it.get("type") == "object": its.append(rng.choice([{"type": "object", "properties": {"label": {"type": "string"}}},
+                                                                             {"type": "object", "properties": {"label": {"type": "string"}}, "required": ["label"]}]))
+                    elif it.get("type") == "string": its.append({"type": "string", "maxLength": 3})
+                    else: its.append({"type": "integer", "minimum": 0})
+                return {"type": "array", "items": its, "minItems": len(its), "maxItems": len(its)}
             if rng.random() < 0.25:
                 ts = [copy.deepcopy(rng.choice(SCALARS[:3])) for _ in range(rng.choice([1, 2, 2, 3]))]
                 return {"type": "array", "items": ts, "minItems": len(ts), "maxItems": len(ts)}
